@@ -680,6 +680,21 @@ def replay(prop, path):
     for o in outs:
         print(json.dumps(o)[:4000])
     print("abnormal:", ab)
+    if ab:
+        return 1
+    if prop in SELECT and outs and not r.get("why", "").startswith(("no_reference_run", "builder")):
+        # re-judge the recorded point on the current tree
+        gfile = os.path.join(wd, "JG-replay.ndjson")
+        rfile = os.path.join(wd, "JR-replay.ndjson")
+        write_ndjson(gfile, [G.export_to_tlc(e)])
+        pairs = prop == "C16"
+        recs = [dict({"o": lean_outcome(x["o"], prop), "so": lean_outcome(x["so"], prop)} if pairs else {"o": lean_outcome(x, prop)}, g=1)
+                for x in outs]
+        res = run_tlc("MC_P2J", "MC_P2J_%s.cfg" % prop, env={"GFILE": gfile, "RFILE": rfile} if write_ndjson(rfile, recs) is None else {},
+                      workers=1, timeout=600, job="p2j-replay")
+        vs = [v for v in res.payload("V") if v]
+        print("judge:", vs if vs else "contract holds on this point now")
+        return 1 if vs else 0
     return 0
 
 
